@@ -334,6 +334,10 @@ def run(chk):
     entry_gauge_rule(chk, src)
     chk.rule("shift-operator", "omega-targeting optimises (H - omega)^2 of the operator that was handed in", 1)
     shift_operator_rule(chk, src)
+    chk.rule("sweep-driver", "single_sweep (abstract run with versioned events): active sites in sweep order for the one- and two-site method, environments of the sites next to them with the "
+                             "system side behind the sweep and built from the current state, stored optimum updated once per root, direction switched at the end", 24)
+    from .chain_rules import single_sweep_rule
+    single_sweep_rule(chk, src, rule_sites="sweep-driver")
     chk.rule("arg-order", "kernels are called with same-named arguments in parameter order", 4)
     cases = K.hop_expr_cases(src) + K.ham_direct_cases(src) + K.hdiag_cases(src)
     add_cases(chk, "heff-network", cases, "effective Hamiltonian")
